@@ -451,6 +451,7 @@ def streams_for(prop, seed, tier, boost=1):
         add('never-indexed-utf8', genmod.never_indexed_utf8_stream())
         add('limits-interleaved', genmod.limit_interleaved_stream())
         add('failed-then-fresh', genmod.failed_then_fresh_stream())
+        add('deccat-warnings-as-errors', G('deccat').dec_catalogue(), {'env': {'HPACK_VERIF_WARNINGS': 'error', 'PYTHONDEVMODE': '1'}})
         add('format-chars', genmod.format_chars_stream())
         add('format-chars-debuglog', genmod.with_debug_log(genmod.format_chars_stream(start_id=51000)))
         add('hdec-in-block', ['dnew 1'] + ['ddec 1 1 ' + genmod.hx(bytes([0x00, 0x80 | (len(o.split()[1]) // 2)]) + bytes.fromhex(o.split()[1]) + b'\x00')
@@ -505,6 +506,7 @@ def streams_for(prop, seed, tier, boost=1):
         add('enc-failing', genmod.enc_fail_stream(G('ef'), n=12 * k))
         add('ctor-options', genmod.ctor_options_stream(G('co2')), {'nocorr': True})
         add('enc-optimized', G('enco').enc_stream(n_conn=10 * k), {'env': {'PYTHONOPTIMIZE': '1'}})
+        add('enc-docstrings-stripped-warnings-as-errors', G('enco2').enc_stream(n_conn=6 * k), {'env': {'PYTHONOPTIMIZE': '2', 'HPACK_VERIF_WARNINGS': 'error'}})
         add('copies', genmod.copy_stream(G('cp')))
         add('direct-add', genmod.eadd_stream())
         add('generator-assigns-size', genmod.eev_stream(G('ev')))
